@@ -29,7 +29,7 @@ CFG = dict(
         "Bridge.C19.deleteRecordsRequired_eq", "Bridge.C19.deleteGroupsRequired_eq",
         "Bridge.C19.deleteGroupInspect_eq", "Bridge.C19.deleteGroupInspect_eq_inspectItem",
     ],
-    n={"quick": 10000, "thorough": 100000, "search": 4000},
+    n={"quick": 10000, "thorough": 200000, "search": 4000},
     thorough_seeds=4,
     level="proof",
     assumptions=[
